@@ -33,8 +33,10 @@ CGLOBAL_USER = {"op": "cell", "act": "cglobal", "text": "zz_", "names": [], "del
 CATTR = {"op": "cell", "act": "cattr", "text": "zzmod_ok.att", "names": [["ok", "zzmod_ok"]], "del": False}
 RUNFILE = {"op": "cell", "act": "runfile", "text": "", "names": [["ok", "b64decode"]], "del": True}
 PRUN = {"op": "cell", "act": "prun", "text": "%prun -q zz_p = b64decode('aGk='); del b64decode", "names": [["ok", "b64decode"]], "del": True}
-HEALTHY = [RUN_IMPORT, RUN_PLAIN, RUN_BAD, RUN_UNKNOWN, RUN_TWO, INSPECT, INSPECT_UNKNOWN, CGLOBAL, CGLOBAL_USER, CATTR, RUNFILE, PRUN]
-TARGETS = [RUN_IMPORT, RUN_TWO, RUN_PLAIN, INSPECT, CGLOBAL, CATTR, RUNFILE, PRUN]
+# stdin is at EOF: ipdb prints its prompt and quits before the statement runs; the auto-import has happened by then
+DEBUGSTMT = {"op": "cell", "act": "debugstmt", "text": "%debug zz_d = b64decode('aGk=')", "names": [["ok", "b64decode"]], "del": False}
+HEALTHY = [RUN_IMPORT, RUN_PLAIN, RUN_BAD, RUN_UNKNOWN, RUN_TWO, INSPECT, INSPECT_UNKNOWN, CGLOBAL, CGLOBAL_USER, CATTR, RUNFILE, PRUN, DEBUGSTMT]
+TARGETS = [RUN_IMPORT, RUN_TWO, RUN_PLAIN, INSPECT, CGLOBAL, CATTR, RUNFILE, PRUN, DEBUGSTMT]
 RUNFILE_TEXT = "zz_r = b64decode('aGk=')\ndel b64decode\n"
 
 
